@@ -41,12 +41,20 @@ Pow(b, e) == IF e = 0 THEN 1 ELSE b * Pow(b, e - 1)
 
 RECURSIVE GSumSeq(_)
 GSumSeq(s) == IF s = <<>> THEN Z0 ELSE GAdd(Head(s), GSumSeq(Tail(s)))
-RECURSIVE GSumTo(_, _)                      \* f[0] + ... + f[n]
-GSumTo(f, n) == IF n < 0 THEN Z0 ELSE GAdd(f[n], GSumTo(f, n - 1))
+RECURSIVE GSumR(_, _, _)                    \* f[lo] + ... + f[hi], recursion depth log(hi - lo)
+GSumR(f, lo, hi) ==
+  IF lo > hi THEN Z0
+  ELSE IF lo = hi THEN f[lo]
+  ELSE LET mid == (lo + hi) \div 2 IN GAdd(GSumR(f, lo, mid), GSumR(f, mid + 1, hi))
+GSumTo(f, n) == GSumR(f, 0, n)              \* f[0] + ... + f[n]
 RECURSIVE GProdTo(_, _)                     \* f[0] * ... * f[n]
 GProdTo(f, n) == IF n < 0 THEN G1 ELSE GMul(f[n], GProdTo(f, n - 1))
-RECURSIVE ISumTo(_, _)
-ISumTo(f, n) == IF n < 0 THEN 0 ELSE f[n] + ISumTo(f, n - 1)
+RECURSIVE ISumR(_, _, _)
+ISumR(f, lo, hi) ==
+  IF lo > hi THEN 0
+  ELSE IF lo = hi THEN f[lo]
+  ELSE LET mid == (lo + hi) \div 2 IN ISumR(f, lo, mid) + ISumR(f, mid + 1, hi)
+ISumTo(f, n) == ISumR(f, 0, n)
 
 Size(c) == Pow(c.d, c.n)
 Idx(c) == 0..(Size(c) - 1)
